@@ -33,6 +33,7 @@ type Conn struct {
 
 	session    Session
 	locker     sync.Mutex
+	closed     bool // set by Close, tells the command loop to stop
 	binarymime bool
 
 	lineLimitReader *lineLimitReader
@@ -180,7 +181,15 @@ func (c *Conn) Close() error {
 		c.session = nil
 	}
 
+	c.closed = true
 	return c.conn.Close()
+}
+
+// isClosed reports whether Close has been called on the connection.
+func (c *Conn) isClosed() bool {
+	c.locker.Lock()
+	defer c.locker.Unlock()
+	return c.closed
 }
 
 // TLSConnectionState returns the connection's TLS connection state.
